@@ -171,7 +171,7 @@ func (tr *Tr) staticCall(fr *frame, callee *ssa.Function, args []Val, bindings [
 		ob.Canary = true
 		return Val{Ty: rt}
 	}
-	if c := tr.G.contracts.Funcs[name]; c != nil && !c.Inline && tr.pure == 0 {
+	if c := tr.calleeContract(name); c != nil && !c.Inline && tr.pure == 0 {
 		tr.closureBindings = bindings
 		return tr.applyContract(fr, callee, c, args, rt, pos, cc)
 	}
@@ -295,6 +295,20 @@ func shortCallee(fn *ssa.Function) string {
 		return s[i+2:]
 	}
 	return s
+}
+
+// calleeContract: the contract a call of `name` is checked against: the variant the function under
+// verification asks for with `use name@variant`, else the function's main contract.
+func (tr *Tr) calleeContract(name string) *Contract {
+	if top := tr.vc.Contract; top != nil && top.Use != nil {
+		if v, ok := top.Use[name]; ok {
+			if c := tr.G.contracts.Funcs[name+"@"+v]; c != nil {
+				return c
+			}
+			vfail("use %s@%s: no such contract", name, v)
+		}
+	}
+	return tr.G.contracts.Funcs[name]
 }
 
 func paramNames(callee *ssa.Function, c *Contract) []string {
@@ -1056,7 +1070,7 @@ func (tr *Tr) loopModSet(fr *frame, li *loopInfo) (map[string]bool, bool) {
 					return
 				}
 			}
-			if c := tr.G.contracts.Funcs[name]; c != nil && !c.Inline {
+			if c := tr.calleeContract(name); c != nil && !c.Inline {
 				if !c.HasAssigns {
 					all = true
 					return
